@@ -63,6 +63,8 @@ def all_crystals():
     L.append(_c("tetra-P-1", [[3, 0, 0], [0, 3, 0], [0, 0, 4.3]], ["In"], [[0, 0, 0]]))
     L.append(_c("bct-conv-2", [[3, 0, 0], [0, 3, 0], [0, 0, 4.6]], ["In", "In"], [[0, 0, 0], [.5, .5, .5]],
                 centring=["I"]))
+    L.append(_c("perovskite-5", np.eye(3) * 3.9, ["Sr", "Ti", "O", "O", "O"],
+                [[0, 0, 0], [.5, .5, .5], [.5, .5, 0], [.5, 0, .5], [0, .5, .5]], polar=True))
     L.append(_c("bct-AB-conv-4", [[3.9, 0, 0], [0, 3.9, 0], [0, 0, 6.1]], ["Ga", "Ga", "As", "As"],
                 [[0, 0, 0], [.5, .5, .5], [0, 0, .37], [.5, .5, .87]], centring=["I"], polar=True))
     L.append(_c("rutile-6", [[4.6, 0, 0], [0, 4.6, 0], [0, 0, 2.95]], ["Ti", "Ti", "O", "O", "O", "O"],
